@@ -45,7 +45,7 @@ TS_IN = '(not %s) or (not is_none(self.lp.binarizer)) or binary(rewards)' % IS_T
 fn('neighbors._Neighbors.fit', props='C03 C06 C07 C14 C17',
    params=NB_FIT,
    requires=['INV~hist', 'slen(decisions) == slen(rewards)', 'rows(contexts) == slen(decisions)', 'cols(contexts) >= 1', TS_IN],
-   modifies=['self.decisions', 'self.contexts', 'self.rewards', 'self.lp.is_contextual_binarized'],
+   modifies=['self.decisions', 'self.contexts', 'self.rewards', 'self.lp.is_contextual_binarized?'],
    # C07: the history is replaced; C14: Thompson rewards are converted exactly once, here
    ensures=['INV', '[C03,C07,hist.d] self.decisions == decisions', '[C03,C07,hist.x] self.contexts == contexts',
             '[C03,C07,C14,hist.r] same_elems(self.rewards, %s)' % STORED_R])
@@ -54,7 +54,7 @@ fn('neighbors._Neighbors.partial_fit', props='C03 C06 C14 C17',
    requires=['INV', 'not is_none(self.decisions)', 'slen(decisions) == slen(rewards)', 'rows(contexts) == slen(decisions)',
              TS_IN],
    raises=['ValueError'], raises_iff='cols(contexts) != cols(self.contexts)',
-   modifies=['self.decisions', 'self.contexts', 'self.rewards', 'self.lp.is_contextual_binarized'],
+   modifies=['self.decisions', 'self.contexts', 'self.rewards', 'self.lp.is_contextual_binarized?'],
    # C03 / C06: the rows of every partial_fit are appended, in order, to all three columns
    ensures=['INV', '[C03,C06,hist.d] self.decisions == concat(old(self.decisions), decisions)',
             '[C03,C06,hist.x] self.contexts == vstack(old(self.contexts), contexts)',
@@ -84,7 +84,7 @@ fn('neighbors._Neighbors._get_nhood_predictions', props='C03 C05 C07 C09 C10 C11
    requires=HIST + LP_READY + ['rows(row_2d) == 1', 'cols(row_2d) == cols(self.contexts)',
                               'indices_in_range(indices, slen(self.decisions))', 'n_indices(indices) > 0',
                               '(not isinstance(lp, _ThompsonSampling)) or is_none(lp.binarizer) or lp.is_contextual_binarized'],
-   modifies=['lp.**'],
+   modifies=['lp.**', 'lp.rng.rng.state'],
    functional=True, varies=['lp'], result=nh_result,
    reads=['lp:config', 'rngstate(lp.rng)', 'lp.binarizer?', 'lp.is_contextual_binarized?', 'self.arms', 'self.decisions',
           'self.rewards', 'self.contexts'],
